@@ -118,4 +118,17 @@ REGISTRY: dict[str, dict] = {
              "random points; real frames judged by the Lean referee against the accepted statements. Non-trivial = at least "
              "one rejection.",
     ),
+    "C17": dict(
+        modules=["C10"],
+        theorems=[T + "C17_frames_bounded", T + "C17_tables_capped", T + "C17_oversized_refused", T + "C17_tables_never_grow",
+                  T + "C10_short_yields_nothing"],
+        rule="PARSE on (25%) random bytes of length 0..100, (40%) valid reference streams with 1-4 bit flips / deletions / "
+             "insertions / splices, (35%) structure-aware hostile streams (declared table sizes up to 2^32-1, frame lengths up "
+             "to 2^64-1, quoted triples nested up to 400 deep, options rows in odd places, over-long varints, invalid UTF-8, "
+             "ids near 2^32, groups and wrong wire types); real flat/grouped parsers run in a subprocess with a 3 GB address-"
+             "space cap and a 10 s alarm per input, recording outcome, peak RSS and time; the model must predict the exact "
+             "outcome (events and exception class). Non-trivial = input longer than 2 bytes.",
+        assumptions=["that the upb C parser and CPython themselves neither crash nor allocate by declared length is runtime "
+                     "behaviour: observed by the watchdog, not proved (claimed partial)"],
+    ),
 }
